@@ -55,7 +55,10 @@ pub fn evals(prop: &str) -> Vec<(&'static str, &'static str)> {
                            ("hyp_coincidence_free", "hyp_coincidence_free"), ("hyp_cf_reg", "hyp_cf_reg")]),
         "C02" => v.extend([("prop_syn_parses", "prop_syn_parses"), ("prop_closed", "prop_closed"), ("prop_sized", "prop_sized"),
                            ("hyp_recursive_items", "hyp_recursive_items")]),
-        "C07" => v.extend([("prop_subst", "prop_subst"), ("prop_faithful", "prop_faithful"), ("hyp_has_subst", "hyp_has_subst"), ("known_F5", "known_F5")]),
+        "C07" => v.extend([("prop_subst", "prop_subst"), ("prop_faithful", "prop_faithful"), ("hyp_has_subst", "hyp_has_subst"), ("known_F5", "known_F5"),
+                           // substitution never turns a well-formed input into a panic (or an error other than the
+                           // duplicate-path one): the totality checker of C10 on the substitute-heavy stream
+                           ("prop_wf_total", "prop_wf_total"), ("hyp_wf", "hyp_wf")]),
         "C08" => v.extend([("prop_derives_exact", "prop_derives_exact"), ("hyp_has_recursive", "hyp_has_recursive")]),
         "C10" => v.extend([("prop_fault_expect", "prop_fault_expect"), ("prop_wf_total", "prop_wf_total"), ("hyp_wf", "hyp_wf"),
                            ("prop_missing_path", "prop_missing_path"), ("prop_missing_id_paths", "prop_missing_id_paths"),
@@ -498,7 +501,15 @@ pub fn cases(prop: &str, tier: &str, ctx: &mut Ctx, rng: &mut Rng) {
                     if !paths.is_empty() {
                         let key = rng.pick(&paths).join("::");
                         spec.ops.push(OpSpec::DerivesFor(key.clone(), vec![format!("S{k}"), "Debug".into()], k % 2 == 0));
-                        spec.ops.push(OpSpec::AttrsFor(key, vec![format!("#[sattr{k}]"), format!("#[shared(specific{k})]")], k % 2 == 1));
+                        spec.ops.push(OpSpec::AttrsFor(key.clone(), vec![format!("#[sattr{k}]"), format!("#[shared(specific{k})]")], k % 2 == 1));
+                        // the same type under other SPELLINGS of its path (leading `::`, spurious generics): distinct
+                        // keys of the derives registry that name no registry type path exactly - they must not
+                        // interfere with the entry for `key` (round-5 seeded change C06-5: keys collapsed to segments)
+                        if k == 0 {
+                            spec.ops.push(OpSpec::DerivesFor(format!("::{key}"), vec!["SpelledAbs".into()], false));
+                            spec.ops.push(OpSpec::DerivesFor(format!("{key}<T>"), vec!["SpelledGen".into()], false));
+                            spec.ops.push(OpSpec::AttrsFor(format!("::{key}"), vec!["#[spelled_abs]".into()], true));
+                        }
                     }
                 }
                 // permutation of the history that keeps the relative order of substitute ops (last insert wins)
@@ -803,6 +814,13 @@ pub fn cases(prop: &str, tier: &str, ctx: &mut Ctx, rng: &mut Rng) {
                             .map(|t| t.ty.type_params.iter().filter(|q| q.ty.is_some()).count()).unwrap_or(0);
                         if np == 0 || np > 4 || reg.types.len() > 60 {
                             continue;
+                        }
+                        if prop == "C07" {
+                            // source written WITHOUT generics, target with FIXED generic arguments (round-5 seeded
+                            // change C07-5: the resolved arguments were appended to such a target)
+                            let mut s = base_spec(reg);
+                            s.ops.push(OpSpec::SubInsert(p.join("::"), "::ext::Opaque<::ext::Bytes, ::core::primitive::u8>".into()));
+                            ctx.push_reg(&format!("corpus-subst-fixed:{n}"), reg, Some(rj), &s);
                         }
                         for style in 0..2 {
                             let names: Vec<String> = (0..np).map(|i| if style == 0 { format!("_{i}") } else { ["A", "B", "C", "D"][i].to_string() }).collect();
